@@ -184,8 +184,27 @@ def run_property(pid, tier='quick', seed=0):
             continue
         bounded.append(b)
     # downgraded functions: their own stand-in (if any) decides them for this run
+    import bounded as _b
+    _b.load_all()
+    from contracts.native import SEARCH as _SEARCH
+    generic_standins = set()
     for q, reason in downgraded:
         sb = prop.standins.get(q)
+        if not sb and q in _SEARCH:
+            # generic stand-in: the function's own small-scope search with its native contract reading
+            generic_standins.add(q)
+            try:
+                found = _SEARCH[q]()
+            except Exception as e:
+                errors.append((q, 'stand-in failed: %s: %s' % (type(e).__name__, e)))
+                continue
+            b = {'name': 'small-scope search for %s' % q, 'standin_for': q, 'evaluations': 1, 'distinct_nontrivial': 1,
+                 'rule': 'native reading of the contract of %s over its built-in small-scope generator' % q,
+                 'exhaustive': False, 'violations': []}
+            if found is not None:
+                b['violations'].append({'key': str(found[0]), 'detail': found[1]})
+            bounded.append(b)
+            continue
         if sb:
             try:
                 mod = importlib.import_module(sb[0])
@@ -241,7 +260,7 @@ def run_property(pid, tier='quick', seed=0):
         code = 3
     if violations:
         code = 1
-    elif not errors and (unknown or missing or [d for d in downgraded if d[0] not in prop.standins]):
+    elif not errors and (unknown or missing or [d for d in downgraded if d[0] not in prop.standins and d[0] not in generic_standins]):
         code = 2
     if obligations == 0 and not bounded:
         code = max(code, 2)
